@@ -6,7 +6,7 @@
    the real functions on a sweep of short strings and on every identifier of every run);
    the C10 theorems never unfold them: the property's precondition speaks about the
    converted names.  *)
-From Coq Require Import String Ascii List Bool Arith.
+From Coq Require Import String Ascii List Bool Arith DecimalNat DecimalString.
 Import ListNotations.
 Open Scope string_scope.
 Open Scope nat_scope.
@@ -141,17 +141,8 @@ Fixpoint join_with (sep : string) (l : list string) : string :=
   | x :: r => (x ++ sep ++ join_with sep r)%string
   end.
 
-Definition digit_char (n : nat) : ascii := ascii_of_nat (48 + n).
-
-Fixpoint dec_aux (fuel n : nat) (acc : string) : string :=
-  match fuel with
-  | O => acc
-  | S f =>
-      let acc' := String (digit_char (n mod 10)) acc in
-      if n / 10 =? 0 then acc' else dec_aux f (n / 10) acc'
-  end.
-(* "{0}".format(n) for n >= 0 *)
-Definition dec (n : nat) : string := dec_aux (S n) n EmptyString.
+(* "{0}".format(n) for n >= 0 (Coq's own decimal printer: its injectivity comes with the library) *)
+Definition dec (n : nat) : string := NilEmpty.string_of_uint (Nat.to_uint n).
 
 Example snake_ex1 : snake_case "COLOR_RGB2HSV" = "color_rgb_2_hsv". Proof. reflexivity. Qed.
 Example snake_ex2 : snake_case "someWord2Go" = "some_word_2_go". Proof. reflexivity. Qed.
